@@ -6,6 +6,8 @@ def _sum(results, key):
 
 
 CHECKS = {}
+# checks run end-to-end and reviewed by the lead; only these are claimed in MANIFEST.json
+REVIEWED = ["C01", "C02", "C03", "C04"]
 NOT_APPLICABLE = {}  # property -> reason, for properties deliberately not claimed
 
 # ------------------------------------------------------------------------------------------------ C01
